@@ -165,8 +165,12 @@ const miniCSV2RDQ = `{
 }`
 const miniCSV2RDQInput = "1,plain\n2,say \"hi\"\n3,\"quoted\n4,5\" wide\n5,\"last\" line\n"
 
+// an XML document that declares a single-byte encoding itself (the decoder switches charset after the declaration)
+const miniXMLDeclaredInput = "<?xml version=\"1.0\" encoding=\"ISO-8859-1\"?>\n<root><rec id=\"a\"><qty>1</qty><tag>caf\xe9</tag></rec><rec id=\"b\"><qty>2</qty><tag>\xfcber</tag></rec><rec id=\"c\"><qty>bad</qty></rec><rec id=\"d\"><qty>4</qty><tag>na\xefve &amp; cr\xe8me</tag></rec></root>\n"
+
 func miniSamples() []Sample {
 	return []Sample{
+		{"mini/xml-declared-latin1", "xml", []byte(miniXML), []byte(miniXMLDeclaredInput)},
 		{"mini/csv2-replace-double-quotes", "csv2", []byte(miniCSV2RDQ), []byte(miniCSV2RDQInput)},
 		{"mini/specials", "csv", []byte(miniSpecials), []byte(miniSpecialsInput)},
 		{"mini/xml-trailer", "xml", []byte(miniXML), []byte(miniXMLTrailerInput)},
